@@ -7,6 +7,8 @@ pub mod c05;
 pub mod c06;
 pub mod c07;
 pub mod c08;
+pub mod c09;
+pub mod tsan;
 pub mod c10;
 pub mod renderutil;
 pub mod c11;
@@ -31,6 +33,8 @@ pub fn lookup(id: &str) -> Option<&'static dyn Prop> {
         "C06" => &c06::C06,
         "C07" => &c07::C07,
         "C08" => &c08::C08,
+        "C09" => &c09::C09,
+        "C09T" => &tsan::C09T,
         "C10" => &c10::C10,
         "C11" => &c11::C11,
         "C12" => &c12::C12,
